@@ -1,7 +1,8 @@
 (* C11 — Distributed power = regular target + operating-point target, in bounds.
    Statements only; every proof is `exact <lemma>` from proofs/. *)
 From Coq Require Import Lia.
-From Verif Require Import model.PowerManager proofs.MatryoshkaFacts proofs.PowerManagerFacts.
+From Verif Require Import model.PowerManager model.PowerManagerN proofs.MatryoshkaFacts proofs.PowerManagerFacts
+  proofs.PowerManagerNFacts.
 
 (* For EVERY history of proposals (regular / operating point), bounds updates (each containing
    zero), distribution results and expiry ticks, starting from the initial state: every request
@@ -37,6 +38,41 @@ Theorem C11_subscriptions_do_not_influence_requests : forall ma1 ma2 h sb st,
   somes (map fst (prun2 ma1 ma2 sb st h)) = map snd (requests ma1 ma2 st (strip h)).
 Proof. intros. apply prun2_requests. Qed.
 
+(* SEVERAL component groups served by one actor (model/PowerManagerN.v: per-group state, the
+   shared partial-failure flag, the timer sweeping every bucket).  For every history over any
+   number of groups: every request sent for group k equals the sum of group k's two stored
+   targets and lies within group k's inclusion bounds in force. *)
+Theorem C11_multi_group_sum_and_bounds : forall ma_reg ma_op n h,
+  Forall wf_nevent h ->
+  Forall (fun '(st', k, x) =>
+            exists g, nth_error (n_groups st') k = Some g /\
+                      x = opt0 (g_target (pm_reg g)) + opt0 (g_target (pm_op g)) /\ incl_ok (pm_sys g) x)
+         (nrequests ma_reg ma_op (pmn_init n) h).
+Proof. intros. apply nrequests_ok; [apply pmn_init_inv|assumption]. Qed.
+
+(* an event concerning group k leaves every other group's proposals, stored targets and bounds
+   untouched (only the partial-failure flag is shared) *)
+Theorem C11_groups_independent : forall ma1 ma2 st k e j,
+  j <> k -> nth_error (n_groups (fst (nstep ma1 ma2 st (NE k e)))) j = nth_error (n_groups st) j.
+Proof. exact nstep_other_groups. Qed.
+
+Theorem C11_tick_keeps_targets : forall ma1 ma2 st now j g,
+  nth_error (n_groups st) j = Some g ->
+  exists g', nth_error (n_groups (fst (nstep ma1 ma2 st (NTick now)))) j = Some g' /\
+             g_target (pm_reg g') = g_target (pm_reg g) /\ g_target (pm_op g') = g_target (pm_op g) /\
+             pm_sys g' = pm_sys g.
+Proof. exact ntick_keeps_targets. Qed.
+
+Example C11_multi_group_nonvacuous :
+  let h := [NE 0 (PBounds (mkS (Some (-100, 100)) None)); NE 1 (PBounds (mkS (Some (-50, 50)) None));
+            NE 0 (PProp true (mkP 1 0 (Some 70) None None 0)); NE 1 (PProp false (mkP 1 0 (Some 80) None None 0));
+            NE 0 (PProp false (mkP 1 0 (Some 20) None None 0)); NE 0 (PResult 1); NE 1 (PResult 1)] in
+  Forall wf_nevent h /\
+  map (fun '(_, k, x) => (k, x)) (nrequests 60000000 60000000 (pmn_init 2) h) = [(0%nat, 70); (1%nat, 50); (0%nat, 90); (0%nat, 90)].
+Proof.
+  split; [repeat constructor; cbn; lia|vm_compute; reflexivity].
+Qed.
+
 (* FINDING F7 (repaired by the `fix:` commit in /repo): the behaviour before the fix treated a
    group whose target did not change as absent.  Witness: op target 70, regular target 20,
    bounds shrink to [-100, 60]: the request was 60 while the stored targets are 20 + 60. *)
@@ -67,4 +103,7 @@ Print Assumptions C11_step.
 Print Assumptions C11_reports_current.
 Print Assumptions C11_tick_coalescing_sound.
 Print Assumptions C11_subscriptions_do_not_influence_requests.
+Print Assumptions C11_multi_group_sum_and_bounds.
+Print Assumptions C11_groups_independent.
+Print Assumptions C11_tick_keeps_targets.
 Print Assumptions C11_F7_before_fix_refuted.
